@@ -134,7 +134,7 @@ func loggerProvenance(v ssa.Value, fn *ssa.Function) string {
 		name := invokeName(call)
 		var recv ssa.Value
 		if cal := calleeOf(call); cal != nil && cal.Signature.Recv() != nil {
-			name = cal.Name()
+			name = nm(cal)
 			recv = call.Common().Args[0]
 		} else if name != "" {
 			recv = call.Common().Value
@@ -174,14 +174,14 @@ func c10Frames(c *Ctx, p *Prog, m *Model) {
 			case fs.Kind == "addr-escape":
 				// &s.attrs handed to argsToAttrs: appends into the logger's own slice
 				if cs, ok := fs.Instr.(ssa.CallInstruction); ok {
-					if cal := calleeOf(cs); cal == nil || cal.Name() != "argsToAttrs" {
+					if cal := calleeOf(cs); cal == nil || nm(cal) != "argsToAttrs" {
 						why = "the address of a logger field is handed to " + callName(cs)
 					}
 				}
 			case fs.Field == "writer" && fs.Kind == "store":
 				okv := isNilConst(fs.Val)
 				if call, ok := strip(fs.Val).(*ssa.Call); ok {
-					if cal := calleeOf(call); cal != nil && cal.Name() == "newDualWriter" {
+					if cal := calleeOf(call); cal != nil && nm(cal) == "newDualWriter" {
 						okv = true
 					}
 				}
@@ -213,14 +213,14 @@ func c10Frames(c *Ctx, p *Prog, m *Model) {
 	}
 	// calls of mutators
 	allow := map[string]string{
-		"SetLevel->invoke SetLevel":             "package-level SetLevel configures the default logger (documented)",
-		"SetSkip->invoke SetSkip":               "package-level SetSkip configures the default logger (documented)",
-		"WithSkip->invoke WithSkip":             "package-level WithSkip derives a child of the default logger (documented)",
-		"NewSlogHandler->invoke SetLevel":       "NewSlogHandler configures the logger it is given (documented)",
-		"NewSlogHandler->invoke SetColorMode":   "NewSlogHandler configures the logger it is given (documented)",
-		"NewSlogHandler->invoke SetJSONMode":    "NewSlogHandler configures the logger it is given (documented)",
-		"NewSlogHandler->SetJSONMode":           "NewSlogHandler configures the logger it is given (documented)",
-		"NewSlogHandler->SetColorMode":          "NewSlogHandler configures the logger it is given (documented)",
+		"SetLevel->invoke SetLevel":           "package-level SetLevel configures the default logger (documented)",
+		"SetSkip->invoke SetSkip":             "package-level SetSkip configures the default logger (documented)",
+		"WithSkip->invoke WithSkip":           "package-level WithSkip derives a child of the default logger (documented)",
+		"NewSlogHandler->invoke SetLevel":     "NewSlogHandler configures the logger it is given (documented)",
+		"NewSlogHandler->invoke SetColorMode": "NewSlogHandler configures the logger it is given (documented)",
+		"NewSlogHandler->invoke SetJSONMode":  "NewSlogHandler configures the logger it is given (documented)",
+		"NewSlogHandler->SetJSONMode":         "NewSlogHandler configures the logger it is given (documented)",
+		"NewSlogHandler->SetColorMode":        "NewSlogHandler configures the logger it is given (documented)",
 	}
 	for _, fn := range p.RepoFuncs() {
 		if fn.Pkg != p.Slog && fn.Parent() == nil {
@@ -230,10 +230,10 @@ func c10Frames(c *Ctx, p *Prog, m *Model) {
 			var recv ssa.Value
 			name := ""
 			if cal := calleeOf(cs); cal != nil && mut[origin(cal)] {
-				recv, name = cs.Common().Args[0], cal.Name()
+				recv, name = cs.Common().Args[0], nm(cal)
 			} else if in := invokeName(cs); in != "" {
 				if _, isSetter := setterWriteSets[in]; isSetter || in == "WithSkip" {
-					if n := namedOf(cs.Common().Value.Type()); n != nil && n.Obj().Pkg() == p.Slog.Pkg && (n.Obj().Name() == "Logger" || n.Obj().Name() == "BuilderI" || n.Obj().Name() == "EntryI" || n.Obj().Name() == "BasicLogger") {
+					if n := namedOf(cs.Common().Value.Type()); n != nil && n.Obj().Pkg() == p.Slog.Pkg && (nm(n.Obj()) == "Logger" || nm(n.Obj()) == "BuilderI" || nm(n.Obj()) == "EntryI" || nm(n.Obj()) == "BasicLogger") {
 						recv, name = cs.Common().Value, "invoke "+in
 					}
 				}
@@ -276,7 +276,7 @@ func freshOrOwnAppend(v, base ssa.Value, field string) bool {
 				return false
 			}
 			first := x.Common().Args[0]
-			if b, _, f, ok := fieldLoad(strip(first)); ok && f.Name() == field && b == base {
+			if b, _, f, ok := fieldLoad(strip(first)); ok && nm(f) == field && b == base {
 				continue
 			}
 			if !freshOrOwnAppend(first, base, field) {
@@ -329,14 +329,14 @@ func c10WithSet(c *Ctx, p *Prog, m *Model) {
 			}
 			want := false
 			for _, sn := range withToSet[wn] {
-				if cal.Name() == sn {
+				if nm(cal) == sn {
 					want = true
 				}
 			}
 			if !want {
 				if cal != ncl && typeName(cal.Signature.Recv().Type()) == "Entry" {
-					if _, isSetter := setterWriteSets[cal.Name()]; isSetter {
-						probs = append(probs, "applies "+cal.Name()+" instead of the namesake setter")
+					if _, isSetter := setterWriteSets[nm(cal)]; isSetter {
+						probs = append(probs, "applies "+nm(cal)+" instead of the namesake setter")
 					}
 				}
 				continue
@@ -348,7 +348,7 @@ func c10WithSet(c *Ctx, p *Prog, m *Model) {
 			// all non-receiver parameters are passed on
 			for i, prm := range fn.Params[1:] {
 				if i+1 >= len(cs.Common().Args) || cs.Common().Args[i+1] != ssa.Value(prm) {
-					probs = append(probs, "parameter "+prm.Name()+" is not passed to the setter unchanged")
+					probs = append(probs, "parameter "+nm(prm)+" is not passed to the setter unchanged")
 				}
 			}
 			applied = true
@@ -414,10 +414,10 @@ func c10WithSet(c *Ctx, p *Prog, m *Model) {
 				continue
 			}
 			if typeName(cal.Signature.Recv().Type()) == "Entry" && cs.Common().Args[0] == ssa.Value(receiver(fn)) {
-				if ws, ok := setterWriteSets[cal.Name()]; ok {
+				if ws, ok := setterWriteSets[nm(cal)]; ok {
 					for _, f := range ws {
 						if !allowed[f] {
-							probs = append(probs, "also calls "+cal.Name()+" (writes "+f+")")
+							probs = append(probs, "also calls "+nm(cal)+" (writes "+f+")")
 						}
 					}
 				}
@@ -493,11 +493,11 @@ func c10Creation(c *Ctx, p *Prog, m *Model) {
 			pred := ph.Block().Preds[i]
 			// the inheriting edge comes from the block dominated by parent != nil
 			fromParent := false
-			if base, _, f, ok := fieldLoad(strip(e)); ok && base == ssa.Value(parent) && f.Name() == fs.Field {
+			if base, _, f, ok := fieldLoad(strip(e)); ok && base == ssa.Value(parent) && nm(f) == fs.Field {
 				fromParent = true
 			}
 			if call, ok := e.(*ssa.Call); ok {
-				if cal := calleeOf(call); cal != nil && cal.Name() == "Level" && call.Common().Args[0] == ssa.Value(parent) && fs.Field == "level" {
+				if cal := calleeOf(call); cal != nil && nm(cal) == "Level" && call.Common().Args[0] == ssa.Value(parent) && fs.Field == "level" {
 					fromParent = true
 				}
 			}
@@ -532,7 +532,7 @@ func c10Creation(c *Ctx, p *Prog, m *Model) {
 	for _, b := range ne.Blocks {
 		for _, in := range b.Instrs {
 			if fa, ok := in.(*ssa.FieldAddr); ok && fa.X == ssa.Value(parent) {
-				f := structOf(fa.X.Type()).Field(fa.Field).Name()
+				f := nm(structOf(fa.X.Type()).Field(fa.Field))
 				if f != "useJSON" && f != "useColor" && f != "level" {
 					extra = append(extra, f)
 				}
@@ -595,7 +595,7 @@ func c10Creation(c *Ctx, p *Prog, m *Model) {
 		gen := 0
 		for _, s := range sources(upd.Key) {
 			if c2, ok := s.(*ssa.Call); ok {
-				if cal := calleeOf(c2); cal != nil && strings.HasPrefix(cal.Name(), "RandomString") {
+				if cal := calleeOf(c2); cal != nil && strings.HasPrefix(nm(cal), "RandomString") {
 					gen++
 				}
 			}
@@ -628,7 +628,7 @@ func c10Creation(c *Ctx, p *Prog, m *Model) {
 		ok := len(rets) == 1
 		if ok {
 			g, isG := globalLoad(rets[0].Instrs[len(rets[0].Instrs)-1].(*ssa.Return).Results[0])
-			ok = isG && g.Name() == "lvlCurrent"
+			ok = isG && nm(g) == "lvlCurrent"
 		}
 		r.Check(ok, "R10.6", "GetLevel", p.FuncPos(getLevel), "returns the package default level", "GetLevel does not return the package default level variable")
 	}
@@ -636,7 +636,7 @@ func c10Creation(c *Ctx, p *Prog, m *Model) {
 	if rl := p.Func(p.Slog, "ResetLevel"); rl != nil {
 		ok := false
 		for _, cs := range callsIn(rl) {
-			if cal := calleeOf(cs); cal != nil && cal.Name() == "SetLevel" {
+			if cal := calleeOf(cs); cal != nil && nm(cal) == "SetLevel" {
 				if v, isC := constInt(cs.Common().Args[0]); isC && v == warn {
 					ok = true
 				}
@@ -646,13 +646,13 @@ func c10Creation(c *Ctx, p *Prog, m *Model) {
 	}
 	// first store to lvlCurrent in init$1 is WarnLevel
 	for _, fn := range p.RepoFuncs() {
-		if !strings.HasPrefix(fn.Name(), "init") {
+		if !strings.HasPrefix(nm(fn), "init") {
 			continue
 		}
 		var first *GlobalStore
 		for _, gs := range globalStores(fn) {
 			gs := gs
-			if gs.G.Name() == "lvlCurrent" && first == nil {
+			if nm(gs.G) == "lvlCurrent" && first == nil {
 				first = &gs
 			}
 		}
